@@ -234,6 +234,9 @@ def build_scheduler(desc, sort_wrapper=None):
             est = FixedBound({s["id"]: r.choice([6.0, 10.0, 13.5, 20.0, 40.0, 0.0, 0, 0.4]) for s in desc["sessions"]
                               if r.random() < 0.8})
         cls = al.SortedSchedulingAlgo if sd["algo"] == "greedy" else al.RoundRobin
+        if sd.get("user_pre"):
+            from .userext import minimal_pre_classes
+            cls = minimal_pre_classes()[0 if sd["algo"] == "greedy" else 1]
         kw = dict(estimate_max_rate=est is not None, max_rate_estimator=est,
                   uninterrupted_charging=bool(sd.get("unint")))
         if sd.get("over"):
